@@ -1070,6 +1070,13 @@ def _gen_degenerate(rng, n):
                     if rng.random() < 0.4:
                         a.pop("order", None)
             add(h, p)
+        elif r == 3 and len(out) % 8 == 3:    # two- and three-digit hcounts / charges (numeric, not lexicographic, comparison)
+            h, p, _, _ = _rand_pair(rng, hmax=5, pmax=3)
+            for g in (h, p):
+                for _, a in g["nodes"]:
+                    a["hcount"] = rng.choice([0, 2, 9, 10, 11, 19, 100])
+                    a["charge"] = rng.choice([0, 0, 10, -10, 12])
+            add(h, p, na=rng.choice([NA_DEFAULT, ["element"]]))
         else:           # isolated nodes only / node ids 0 and large
             k = rng.randint(1, 5)
             h = {"nodes": [[i * 10 ** rng.randint(0, 6), dict(element=rng.choice("CO"), charge=0, hcount=rng.randint(0, 1))] for i in range(k)], "edges": []}
@@ -1174,7 +1181,7 @@ def gen_cases(tier, rng):
     cases += _gen_history(rng, 200 if q else 4000)
     # these carry max_results settings: the result is a prefix in VF2 order, so they are order-sensitive cases (VF2 order recorded)
     cases += [attach_vf2(c) for c in _gen_styles(rng, 40 if q else 400) + _gen_degenerate(rng, 160 if q else 3000)
-              + _gen_big(rng, 40 if q else 600)]
+              + _gen_big(rng, 60 if q else 600)]
     cls = {n: _classes(n) for n in (1, 2, 3, 4)}
     # ---- exhaustive iso-class scope, order-insensitive
     hosts = cls[1] + cls[2] + cls[3] + (cls[4] if tier == "thorough" else [])
